@@ -425,7 +425,7 @@ fn main() {
         }
     }
 
-    let n = check.tier.pick(400u32, 12_000);
+    let n = check.tier.pick(2_000u32, 120_000);
     pt::run(
         &check,
         "c02-A",
